@@ -193,3 +193,20 @@ Definition vclip (lo hi : Q) (a : list Q) : list Q :=
 Definition gatherR {A} (m : list (list A)) (idx : list Z) : list (list A) := map (getR m) idx.
 (* raise: the computation has no result *)
 Definition fail {A} : M A := fun _ => None.
+(* whole-array forms of the grid decoders (utils/transformations.py): 2 ** a, np.dot(2-D, 1-D), np.logical_xor.accumulate(m, axis=-1)
+   (then astype(byte)), np.logical_xor of two 2-D arrays, the column slices m[:, :-1] and m[:, 1:], np.hstack([m[:, 0].reshape(-1, 1), rest]);
+   truth values are 0 / 1 integers (non-zero = true) *)
+Definition pow2s (l : list Z) : list Z := map (Z.pow 2) l.
+Definition dotZ (a b : list Z) : Z := sumZ (map (fun p => fst p * snd p) (combine a b)).
+Definition matvecZ (m : list (list Z)) (v : list Z) : list Z := map (fun r => dotZ r v) m.
+Definition b2z (b : bool) : Z := if b then 1 else 0.
+Definition z2b (z : Z) : bool := negb (z =? 0).
+Fixpoint xor_accZ (acc : bool) (g : list Z) : list Z :=
+  match g with [] => [] | x :: t => let a := xorb acc (z2b x) in b2z a :: xor_accZ a t end.
+Definition xor_accumulate_rows (m : list (list Z)) : list (list Z) := map (xor_accZ false) m.
+Fixpoint zip_with {A B C} (f : A -> B -> C) (la : list A) (lb : list B) : list C :=
+  match la, lb with a :: ta, b :: tb => f a b :: zip_with f ta tb | _, _ => [] end.
+Definition logical_xor2 (a b : list (list Z)) : list (list Z) := zip_with (zip_with (fun x y => b2z (xorb (z2b x) (z2b y)))) a b.
+Definition cols_but_last (m : list (list Z)) : list (list Z) := map (@removelast Z) m.
+Definition cols_from1 (m : list (list Z)) : list (list Z) := map (@tl Z) m.
+Definition hstack_col0 (m rest : list (list Z)) : list (list Z) := zip_with (fun r q => hd 0 r :: q) m rest.
